@@ -522,6 +522,15 @@ func runC13(s *kernel.Sim, cfg string) {
 		return f, param
 	}
 	l.origin.OnChunk = func(string) { s.Yield("http-chunk") }
+	l.origin.NoLength = func(string) bool {
+		if t.Chance(1, 3, "no-content-length") {
+			s.Probe("http-response-without-length")
+
+			return true
+		}
+
+		return false
+	}
 
 	l.st, l.hashes, l.hp = l.newStorage(cacheDir)
 
